@@ -558,6 +558,7 @@ static JanetAssembleResult janet_asm1(JanetAssembler *parent, Janet source, int 
 
     x = janet_get1(s, janet_ckeywordv("min-arity"));
     def->min_arity = janet_checkint(x) ? janet_unwrap_integer(x) : def->arity;
+    janet_asm_assert(&a, def->min_arity >= 0, "min-arity must be non-negative");
     janet_asm_assert(&a, def->min_arity <= def->arity, "min-arity must be less than or equal to arity");
 
     /* Check vararg */
